@@ -102,6 +102,16 @@ def judgeMaxFlow (ces : List FlowSpec.E) : Option (Int × List FlowSpec.E) :=
   | none => none
   | some sv => some (sv.maxFlow, sv.g.triples)
 
+def coordOfNodes (nodes : List (Nat × Int × Int)) (i : Nat) : Coord :=
+  match nodes.find? (·.1 == i) with
+  | some (_, la, lo) => { lat := la, lon := lo }
+  | none => { lat := 0, lon := 0 }
+
+def keyOfNodes (nodes : List (Nat × Int × Int)) (axis : Nat) (i : Nat) : Int :=
+  match nodes.find? (·.1 == i) with
+  | some (_, la, lo) => specKey axis la lo
+  | none => 0
+
 def ltB (a b : Int) : Bool := decide (a < b)
 
 /-- tied keys: the structural clauses for SOME admissible order; `none` = all hold -/
@@ -151,16 +161,11 @@ def handle (c : Case) : CaseOut := Id.run do
     return { model := #[], verdict := .skip "edge whose source is not in the cell" }
   let bF := Float.ofBits inp.bBits.toUInt64
   if !(bF > 0.0 && bF < 0.5) then return { model := #[], verdict := .skip "balance factor not in (0, 0.5)" }
+  if inp.bound < 0 then return { model := #[], verdict := .skip "negative upper bound" }
   if inp.nodes.any (fun (_, la, lo) => la.natAbs ≥ 2 ^ 29 || lo.natAbs ≥ 2 ^ 29) then
     return { model := #[], verdict := .skip "coordinates whose key could overflow i32" }
-  let coordOf : Nat → Coord := fun i =>
-    match inp.nodes.find? (·.1 == i) with
-    | some (_, la, lo) => { lat := la, lon := lo }
-    | none => { lat := 0, lon := 0 }
-  let keyOf : Nat → Int := fun i =>
-    match inp.nodes.find? (·.1 == i) with
-    | some (_, la, lo) => specKey inp.axis la lo
-    | none => 0
+  let coordOf : Nat → Coord := coordOfNodes inp.nodes
+  let keyOf : Nat → Int := keyOfNodes inp.nodes inp.axis
   let keysSorted := (ids.map keyOf).toArray.qsort (· < ·)
   let distinct := (List.range (keysSorted.size - 1)).all fun i => keysSorted[i]! != keysSorted[i+1]!
   let tag := if distinct then "D" else "F"
@@ -195,14 +200,10 @@ def handle (c : Case) : CaseOut := Id.run do
   else if 2 * kSpec > n then
     verdict := .fail s!"k = {kSpec} but n = {n}: the contracted ends overlap"
   else if hasPanic c.impl then
-    if distinct && ces.isEmpty then
-      verdict := .fail "[D22-empty-flow-graph] sub_step panicked on a cell (>= 2 nodes) whose contracted graph has no edge left after self-loop removal; the property demands flow 0, left = first k, right = last k"
+    if ces.isEmpty then
+      verdict := .fail "sub_step panicked on a cell whose contracted graph has no edge left after self-loop removal (defect D22, fixed in /repo, is back); the property demands flow 0, left = first k, right = last k"
     else if selfLoop then
-      verdict := .fail "[D22-empty-flow-graph] sub_step panicked on a cell with an input self-loop (the looped node's solver id lies outside the flow graph, or the flow graph is empty)"
-    else if !distinct && !(inp.edges.any fun e => e.1 != e.2 &&
-        (decide (keysSorted[kSpec - 1]! < keyOf e.1 ∧ keyOf e.1 < keysSorted[n - kSpec]!) ||
-         decide (keysSorted[kSpec - 1]! < keyOf e.2 ∧ keyOf e.2 < keysSorted[n - kSpec]!) || !ids.contains e.2)) then
-      verdict := .fail "[D22-empty-flow-graph] sub_step panicked on a tied-key cell in which no edge is certain to survive the contraction (every edge may lie inside a contracted end)"
+      verdict := .fail "sub_step panicked on a cell with an input self-loop (defect D22, fixed in /repo, is back: the looped node's solver id lies outside the flow graph)"
     else verdict := .fail "sub_step panicked on an in-domain cell"
   else
     let resS := (obs? c.impl "res").bind fun (_, r) => r.head?
@@ -245,9 +246,11 @@ def handle (c : Case) : CaseOut := Id.run do
         else if distinct then
           if !Bisection.structOK inp.edges jsorted kSpec flow left right then
             verdict := .fail (Bisection.structWhy inp.edges jsorted kSpec flow left right)
+          else if !left.all (fun x => Bisection.rho S T x < FlowSpec.nNodes ces) then
+            verdict := .fail "the left set contains a node that is not part of the contracted flow graph (its only edges are self-loops): left is not inclusion-minimal"
           else if ces.isEmpty then
-            if flow != 0 || left.length != kSpec then
-              verdict := .fail "contracted graph has no edges: expected flow 0 and left = the contracted first end"
+            if flow != 0 then
+              verdict := .fail "contracted graph has no edges: expected flow 0"
           else
             match judgeMaxFlow ces with
             | none => verdict := .fail "judge: EdmondsKarp model out of fuel"
@@ -255,7 +258,7 @@ def handle (c : Case) : CaseOut := Id.run do
               jflow := mf
               let nn := FlowSpec.nNodes ces
               let (_, tree) := bfsTree nn res.toArray
-              let side := Bisection.sideOf inp.edges jsorted left
+              let side := Bisection.sideOf inp.edges jsorted kSpec left
               if !Bisection.cutCertFast ces 0 1 res flow side tree then
                 verdict := .fail (Bisection.cutCertWhy ces 0 1 res flow side tree)
         else
